@@ -27,7 +27,7 @@ ENTRIES = ['lookup', 'lookup1', 'adapter_hook', 'queryAdapter', 'queryMultiAdapt
            'subscriptions', 'subscribers', 'call']
 POINTS = ['lazy_required', 'provided_hash', 'provided_eq', 'name_hash', 'name_bool', 'required_hash', 'required_eq',
           'uncached_entry', 'uncached_exit', 'spec_weakref', 'spec_subscribe', 'providedBy_descr', 'provides_descr',
-          'conform', 'factory', 'value_del', 'generation_attr', 'generation_attr_2nd', 'sro_attr']
+          'conform', 'factory', 'value_del', 'generation_attr', 'generation_attr_2nd', 'sro_attr', 'super_self']
 ACTIONS = ['register', 'unregister', 'subscribe', 'unsubscribe', 'changed', 'rebase', 'reenter_same',
            'reenter_other', 'raise', 'gc', 'register_flood', 'changed_flood']
 
@@ -37,6 +37,17 @@ class Boom(Exception):
 
 
 FINALIZED = set()     # tags of values whose __del__ has run
+DEAD_IDS = set()      # addresses of Fresh objects that were finalized and whose address has not been re-used by a new one
+
+
+class Fresh:
+    """Object handed out by a computed ``__self__`` of a ``super`` subclass: nobody but the caller owns it."""
+
+    def __init__(self):
+        DEAD_IDS.discard(id(self))
+
+    def __del__(self):
+        DEAD_IDS.add(id(self))
 
 
 class Val:
@@ -281,6 +292,21 @@ class Case:
                     return None
             Adaptee = Adaptee4
         self.obj = Adaptee()
+        self.dead_args = 0
+        if point == 'super_self':
+            # a subclass of super whose __self__ is computed: the lookup is the only owner of what it gets
+            class FreshAdaptee(Fresh, Adaptee):
+                pass
+
+            class Sub(FreshAdaptee):
+                pass
+
+            class S(super):
+                @property
+                def __self__(self_):
+                    fire('super_self')
+                    return Sub()
+            self.obj = S(Sub, Sub())
         self.lspec = providedBy(self.obj) if point not in ('providedBy_descr', 'provides_descr') else None
         # initial content
         self.mutate('reg', 'register', [self.IR], self.IP, 'n', self.newval())
@@ -303,6 +329,14 @@ class Case:
                     case.fire('factory')
                     return ('made', self_.tag)
             return FVal(tag)
+        if self.point == 'super_self':
+            class SVal(Val):
+                def __call__(self_, *obs):
+                    for o in obs:
+                        if id(o) in DEAD_IDS:     # only the address is looked at
+                            case.dead_args += 1
+                    return ('made', self_.tag)
+            return SVal(tag)
         if self.point == 'value_del':
             class DVal(Val):
                 def __del__(self_):
@@ -493,6 +527,12 @@ class Case:
             if dead:
                 ctx.violation('reentrant-lookup-returned-a-finalized-object', dict(where, warm=self.warm, value=repr(x)), abort=False)
         del self.reentrant_results[:]
+        if self.point == 'super_self':
+            ctx.ev()
+            ctx.count('super_self_factory_checks')
+            if self.dead_args:
+                ctx.violation('factory-called-with-a-finalized-object', dict(where, times=self.dead_args),
+                              mechanism='borrowed_super_self', abort=False)
         r2 = self.observe(lambda: self.call_entry(self.reg, self.entry, hostile=False))
         after = self.observe(lambda: self.call_entry(self.cold(), self.entry, hostile=False))
         ctx.ev(3)
@@ -658,7 +698,7 @@ def run_leak(ctx, rng, job):
             'subscriptions-raising-uncached': lambda: reg.subscriptions([IR, IR], IP),
         }
 
-        def meter(label, fn, boom=False):
+        def meter(label, fn, boom=False, extra=()):
             lk.boom = False
 
             def once():
@@ -676,12 +716,14 @@ def run_leak(ctx, rng, job):
             for _ in range(50):
                 once()
             gc.collect()
-            r0 = (sys.getrefcount(IR), sys.getrefcount(IP), sys.getrefcount(sentinel_default), sys.getrefcount(fac), sys.getrefcount(ob))
+            r0 = (sys.getrefcount(IR), sys.getrefcount(IP), sys.getrefcount(sentinel_default), sys.getrefcount(fac), sys.getrefcount(ob)) + \
+                tuple(sys.getrefcount(x) for x in extra)
             b0 = sys.getallocatedblocks()
             for _ in range(N):
                 once()
             gc.collect()
-            r1 = (sys.getrefcount(IR), sys.getrefcount(IP), sys.getrefcount(sentinel_default), sys.getrefcount(fac), sys.getrefcount(ob))
+            r1 = (sys.getrefcount(IR), sys.getrefcount(IP), sys.getrefcount(sentinel_default), sys.getrefcount(fac), sys.getrefcount(ob)) + \
+                tuple(sys.getrefcount(x) for x in extra)
             b1 = sys.getallocatedblocks()
             lk.boom = False
             reg.unregister([IRtmp], IP, '')
@@ -699,7 +741,7 @@ def run_leak(ctx, rng, job):
             ctx.shape(('leak', flavour, label), nontrivial=True)
             if max(deltas) > N // 10 or slope > 0.2:
                 ctx.violation('reference-leak', {'flavour': flavour, 'scenario': label, 'calls': N,
-                                                 'refcount_deltas[IR,IP,default,factory,object]': deltas,
+                                                 'refcount_deltas[IR,IP,default,factory,object,extras...]': deltas,
                                                  'allocated_blocks_per_call': round(slope, 3)},
                               mechanism='error_path_leaks_required' if 'unhashable-provided' in label or 'raising-hash-provided' in label else None,
                               abort=False)
@@ -707,6 +749,59 @@ def run_leak(ctx, rng, job):
             meter(label, fn)
         for label, fn in booms.items():
             meter(label, fn, boom=True)
+        # an adapted *class* nobody has asked for its implementation specification yet, whose __provides__ is not a
+        # specification: its declaration is worked out anew at every call
+        odd_provides = ['not a specification']
+
+        class KC:
+            __provides__ = odd_provides
+        meter('queryAdapter-class-with-nonspec-provides', lambda: reg.queryAdapter(KC, IP, '', sentinel_default), extra=(odd_provides, KC))
+        meter('adapter_hook-class-with-nonspec-provides', lambda: reg.adapter_hook(IP, KC, ''), extra=(odd_provides, KC))
+        meter('subscribers-class-with-nonspec-provides', lambda: reg.subscribers((KC,), IP), extra=(odd_provides, KC))
+        # a super subclass with a computed __self__ (every call gets a new object)
+        class KS(K):
+            pass
+
+        class SS(super):
+            @property
+            def __self__(self_):
+                return KS()
+        sob = SS(KS, KS())
+        ks_ob = KS()
+        meter('adapter_hook-super-computed-self', lambda: reg.adapter_hook(IP, sob, ''), extra=(KS,))
+        meter('queryAdapter-super', lambda: reg.queryAdapter(super(KS, ks_ob), IP, ''), extra=(KS, ks_ob))
+        if flavour == 'verifying':
+            # a base whose generation is computed (persistent registries) and re-enters changed() of the registry
+            # below it while that one is recording the generations anew
+            class GBase(Base):
+                countdown = -1
+
+                @property
+                def _generation(self_):
+                    if GBase.countdown >= 0:
+                        GBase.countdown -= 1
+                        if GBase.countdown < 0:
+                            gsite.changed(None)
+                    return self_.__dict__.get('_g', 0)
+
+                @_generation.setter
+                def _generation(self_, v):
+                    self_.__dict__['_g'] = v
+            gbase = GBase()
+            gsite = Base((gbase,))
+            gbase.register([IR], IP, '', fac)
+
+            def reenter():
+                gbase.changed(None)
+                GBase.countdown = 1
+                gsite.lookup((IR,), IP)
+            meter('verifying-generation-read-reenters-changed', reenter, extra=(gbase, gsite))
+
+            def reenter_raise():
+                gbase.changed(None)
+                GBase.countdown = 0
+                gsite.lookup1(IR, IP)
+            meter('verifying-first-generation-read-reenters-changed', reenter_raise, extra=(gbase, gsite))
     ctx.sample({'scenarios': 'see counters', 'calls_per_scenario': N})
 
 
